@@ -1389,8 +1389,15 @@ def rule_E5(repo: Repo) -> RuleResult:
             from .rules_k import _mask_aliases, _selection_of_path
             if "mask" in f.named_params and _selection_of_path(p, {"mask"}, _mask_aliases(f, {"mask"})) == "unselected":
                 continue
-            outs = [(i, st) for i, st in enumerate(p.stmts) if isinstance(st, ast.Assign) and isinstance(st.targets[0], ast.Subscript)
-                    and isinstance(st.value, ast.BinOp) and isinstance(st.value.op, ast.Div)]
+            # the normalised value is stored into the output directly, or first given a name that is then stored
+            outs = []
+            for i, st in enumerate(p.stmts):
+                if isinstance(st, ast.Assign) and len(st.targets) == 1 and isinstance(st.value, ast.BinOp) and isinstance(st.value.op, ast.Div):
+                    t0 = st.targets[0]
+                    if isinstance(t0, ast.Subscript) or (isinstance(t0, ast.Name) and any(
+                            isinstance(s2, ast.Assign) and isinstance(s2.targets[0], ast.Subscript) and isinstance(s2.value, ast.Name)
+                            and s2.value.id == t0.id for s2 in p.stmts[i + 1:])):
+                        outs.append((i, st))
             desc = p.describe()[:70]
             if len(outs) != 1:
                 res.bad(f, loop, f"{kname}: {len(outs)} normalised output store(s) on {desc}",
